@@ -161,7 +161,7 @@ class ContractMixin:
         """Resolve a `modifies` list to [(ref z3 | None, heap key, type)]."""
         locs = []
         for m in fs.modifies:
-            if m in ("fresh", "alloc", "fresh1"):
+            if m in ("fresh", "alloc", "fresh1", "*"):
                 continue
             node = ast.parse(m, mode="eval").body
             if not isinstance(node, ast.Attribute):
@@ -196,6 +196,11 @@ class ContractMixin:
     def havoc_modifies(self, fs, bound, st: State, mod, fnode, node=None, check=True):
         if check:
             self.check_alloc_frame(fs, st, node)
+        if "*" in fs.modifies:
+            if check and self.root_spec is not None and not st.spec and "*" not in self.root_spec.modifies:
+                self.oblige(st, "frame", f"callee {fs.qualname} may write anything (`*`)", z3.BoolVal(False), node)
+            st.havoc_all()
+            return
         for ref, key, t in self.modifies_locs(fs, bound, st, mod, fnode):
             if check:
                 self.check_frame(st, ref, key, node)
